@@ -43,6 +43,8 @@ type crashProgram struct {
 	Writers int
 	Txns    [][]crashTxn // per writer
 	Drained bool
+	// SlowFlusher delays the flush goroutine at its schedule points (free-running programs only)
+	SlowFlusher bool
 }
 
 const delMark = "\x00<del>"
@@ -82,12 +84,27 @@ func genProgram(seed int64, flavour string, drained bool, writers int, ntx int) 
 		profile = "windowed"
 		nk = 24
 	}
+	if flavour == "closepending" {
+		// free-running, slow flusher, room in the queue: Close is called with several flushes pending
+		p.SlowFlusher = true
+		p.Drained = false
+		p.Cfg.ImmutableBuffer = 2 + r.Intn(3)
+		p.Cfg.MemtableByteThreshold = 120
+	}
 	p.Keys = gen.Keys(r, profile, nk*writers)
 	minKeys, maxKeys := 1, 3
 	if flavour == "multikey" {
 		// 3-6 key transactions and a threshold that makes them straddle a rotation
 		minKeys, maxKeys = 3, 6
 		p.Cfg.MemtableByteThreshold = []int{60, 120, 250}[r.Intn(3)]
+	}
+	valPad := func() int { return r.Intn(30) }
+	if flavour == "bigtxn" {
+		// multi-key transactions whose wal batch is several KiB (larger than any 4 KiB I/O buffer)
+		minKeys, maxKeys = 3, 6
+		p.Cfg.MemtableByteThreshold = []int{4000, 12000, 30000}[r.Intn(3)]
+		p.Cfg.DataBlockByteThreshold = []int{200, 4096}[r.Intn(2)]
+		valPad = func() int { return 800 + r.Intn(2400) }
 	}
 	p.Txns = make([][]crashTxn, writers)
 	for w := 0; w < writers; w++ {
@@ -105,7 +122,7 @@ func genProgram(seed int64, flavour string, drained bool, writers int, ntx int) 
 				if r.Intn(5) == 0 {
 					t.Writes[k] = delMark
 				} else {
-					t.Writes[k] = fmt.Sprintf("w%d.t%d.%d-%s", w, i, j, strings.Repeat("p", r.Intn(30)))
+					t.Writes[k] = fmt.Sprintf("w%d.t%d.%d-%s", w, i, j, strings.Repeat("p", valPad()))
 				}
 			}
 			p.Txns[w] = append(p.Txns[w], t)
@@ -138,9 +155,27 @@ var kill struct {
 	phase  string
 }
 
-func installKill(side string, at int, phase string) {
+// installKill arms the handler. dir is the database directory: files that exist in it when the
+// process starts count as synced up to the length given in <side>/synced0.json (written by the
+// orchestrator from the previous crash point), or up to their whole size if it does not list them.
+func installKill(dir, side string, at int, phase string) {
 	kill.at, kill.side, kill.phase = at, side, phase
 	kill.synced = map[string]int64{}
+	base := map[string]int64{}
+	if b, err := os.ReadFile(filepath.Join(side, "synced0.json")); err == nil {
+		json.Unmarshal(b, &base)
+	}
+	if ents, err := os.ReadDir(dir); err == nil {
+		for _, e := range ents {
+			if fi, err := e.Info(); err == nil && !fi.IsDir() {
+				if s, ok := base[e.Name()]; ok {
+					kill.synced[filepath.Join(dir, e.Name())] = s
+				} else {
+					kill.synced[filepath.Join(dir, e.Name())] = fi.Size()
+				}
+			}
+		}
+	}
 	eng.H.FS = func(op, path string) {
 		kill.mu.Lock()
 		kill.count++
@@ -219,7 +254,11 @@ func crashRunMain(args []string) int {
 	dir, side := args[0], args[1]
 	p := readProgramFile(args[2])
 	at, _ := strconv.Atoi(args[3])
-	installKill(side, at, "workload")
+	installKill(dir, side, at, "workload")
+	if p.SlowFlusher {
+		// the flusher lags behind: rotated memtables queue up and Close finds flushes pending
+		eng.H.SetProfile("slow-flusher", p.Seed)
+	}
 	ack, err := os.OpenFile(filepath.Join(side, "ack.log"), os.O_CREATE|os.O_WRONLY|os.O_APPEND, 0644)
 	if err != nil {
 		panic(err)
@@ -279,7 +318,7 @@ func crashReopenMain(args []string) int {
 	dir, side := args[0], args[1]
 	p := readProgramFile(args[2])
 	at, _ := strconv.Atoi(args[3])
-	installKill(side, at, "recovery")
+	installKill(dir, side, at, "recovery")
 	eng.Open(dir, p.Cfg)
 	fmt.Println("TOTAL", killTotal())
 	os.Exit(0) // do not Close: the directory stays as recovery left it
@@ -296,7 +335,7 @@ type verifyOut struct {
 func crashVerifyMain(args []string) int {
 	dir, side := args[0], args[1]
 	p := readProgramFile(args[2])
-	installKill(side, 0, "verify")
+	installKill(dir, side, 0, "verify")
 	db := eng.Open(dir, p.Cfg)
 	out := verifyOut{State: map[string]string{}, Post: map[string]string{}}
 	out.Ops = killTotal()
@@ -309,7 +348,11 @@ func crashVerifyMain(args []string) int {
 		return nil
 	})
 	// the recovered store accepts and retains further commits
-	for _, k := range p.Keys {
+	// (every second key only: the others must keep the value they had right after recovery)
+	for i, k := range p.Keys {
+		if i%2 == 1 {
+			continue
+		}
 		kk := k
 		if err := db.Update(func(tx *originium.Txn) error { return tx.Set(kk, []byte("post-"+kk)) }); err != nil {
 			panic(fmt.Sprintf("post-recovery Update returned %v", err))
@@ -449,9 +492,19 @@ func judgeRecovery(st ackState, v verifyOut, p crashProgram, atomic bool) []judg
 			}
 		}
 	}
-	for _, k := range p.Keys {
-		if v.Post[k] != "post-"+k {
-			out = append(out, judgement{"C03", "post-recovery-commit-not-retained", fmt.Sprintf("after recovery, a commit of %q=%q, Close and Open, the key reads %q", k, "post-"+k, v.Post[k])})
+	for i, k := range p.Keys {
+		if i%2 == 0 {
+			if v.Post[k] != "post-"+k {
+				out = append(out, judgement{"C03", "post-recovery-commit-not-retained", fmt.Sprintf("after recovery, a commit of %q=%q, Close and Open, the key reads %q", k, "post-"+k, v.Post[k])})
+				break
+			}
+			continue
+		}
+		// keys not written after recovery keep what recovery produced
+		a, aok := v.State[k]
+		b, bok := v.Post[k]
+		if a != b || aok != bok {
+			out = append(out, judgement{"C03", "recovered-value-lost-after-further-commits", fmt.Sprintf("key %q read (%q, found=%v) right after recovery but (%q, found=%v) after commits to other keys, Close and Open", k, a, aok, b, bok)})
 			break
 		}
 	}
@@ -725,6 +778,64 @@ func runCrashCase(c core.Case, focus string) core.Result {
 				os.RemoveAll(d2)
 			}
 		}
+		// C14: crash again inside the recovery, then additionally lose the unsynced tails of what the
+		// recovery (and the first run) wrote
+		if images && seqEvery > 0 && points%seqEvery == 0 {
+			base := map[string]int64{}
+			for f, rg := range cp.Unsynced {
+				base[f] = rg[0]
+			}
+			bb, _ := json.Marshal(base)
+			os.WriteFile(filepath.Join(s, "synced0.json"), bb, 0644)
+			for m := 1; m < 400 && len(res.Violations) < 8; m++ {
+				d2 := filepath.Join(cc.base, fmt.Sprintf("d%d-r%d", n, m))
+				copyDir(img, d2)
+				code2, out2 := child(cc.env, "crash-reopen", d2, s, cc.caseFile, strconv.Itoa(m))
+				if code2 == 0 {
+					os.RemoveAll(d2)
+					break
+				}
+				if code2 != 77 {
+					pl, fr := core.FirstPanic(out2)
+					res.Violate("C14", "C14/open-failed/"+sigShort(fr), "recovery (to be killed before its operation %d) failed by itself: %s at %s\nafter crash at kill index %d; dir %s\n%s", m, pl, fr, n, listDir(img), tailN(out2, 1200))
+					os.RemoveAll(d2)
+					break
+				}
+				var cp2 crashPoint
+				b2, _ := os.ReadFile(filepath.Join(s, "crash.json"))
+				json.Unmarshal(b2, &cp2)
+				seqs++
+				cc.classes[fmt.Sprintf("%s|%s:%s", cp2.Phase, cp2.Op, fileClass(cp2.File))]++
+				var files []string
+				for f := range cp2.Unsynced {
+					files = append(files, f)
+				}
+				sort.Strings(files)
+				os.Remove(filepath.Join(s, "synced0.json")) // the verify child starts from what is on disk
+				for _, f := range files {
+					rg := cp2.Unsynced[f]
+					cuts := cutsFor(rg[0], rg[1], false)
+					if len(cuts) > 4 {
+						cuts = []int64{cuts[0], cuts[1], cuts[len(cuts)/2], cuts[len(cuts)-1]}
+					}
+					for _, cut := range cuts {
+						d3 := filepath.Join(cc.base, fmt.Sprintf("d%d-r%d-cut", n, m))
+						os.RemoveAll(d3)
+						copyDir(d2, d3)
+						os.Truncate(filepath.Join(d3, f), cut)
+						imgs++
+						cutBytes += int(rg[1] - cut)
+						res.AddObs("images_with_bytes_cut", 1)
+						cc.classes["image-after-recovery-crash|"+fileClass(f)]++
+						cc.verifyAndJudge(d3, s, st, false, fmt.Sprintf("crash at kill index %d, recovery killed before its operation %d (%s of %s), plus loss of the unsynced tail of %s: truncated to %d of [synced %d, size %d)", n, m, cp2.Op, cp2.File, f, cut, rg[0], rg[1]), cp2)
+						os.RemoveAll(d3)
+					}
+				}
+				os.WriteFile(filepath.Join(s, "synced0.json"), bb, 0644)
+				os.RemoveAll(d2)
+			}
+			os.Remove(filepath.Join(s, "synced0.json"))
+		}
 		// torn tails: additionally drop any suffix of the bytes written after the last fsync
 		if images && len(cp.Unsynced) > 0 {
 			var files []string
@@ -817,21 +928,27 @@ func genCrash(focus, tier string, seed int64) []core.Case {
 			add(1, spec{"deep", 1, 1, 36, 8, 1})
 			add(1, spec{"plain", 0, 1, 30, 8, 2})
 			add(1, spec{"plain", 0, 2, 16, 8, 2})
+			add(1, spec{"closepending", 0, 1, 14, 8, 1})
 			seqEvery = 24
 		} else {
 			add(24, spec{"plain", 1, 1, 40, 16, 1})
 			add(16, spec{"deep", 1, 1, 60, 16, 1})
 			add(30, spec{"plain", 0, 1, 40, 16, 1})
 			add(10, spec{"plain", 0, 3, 20, 16, 1})
+			add(12, spec{"closepending", 0, 1, 24, 16, 1})
+			add(8, spec{"bigtxn", 1, 1, 24, 16, 1})
 			seqEvery, depth3 = 6, 1
 		}
 	case "C04":
 		if quick {
-			add(3, spec{"multikey", 1, 1, 22, 8, 1})
+			add(2, spec{"multikey", 1, 1, 22, 8, 1})
+			add(1, spec{"bigtxn", 1, 1, 14, 8, 1})
 			add(1, spec{"multikey", 0, 1, 22, 8, 2})
 			add(1, spec{"multikey", 0, 2, 12, 8, 2})
 		} else {
-			add(40, spec{"multikey", 1, 1, 40, 16, 1})
+			add(30, spec{"multikey", 1, 1, 40, 16, 1})
+			add(12, spec{"bigtxn", 1, 1, 30, 16, 1})
+			add(6, spec{"bigtxn", 0, 2, 16, 16, 1})
 			add(30, spec{"multikey", 0, 1, 40, 16, 1})
 			add(10, spec{"multikey", 0, 3, 20, 16, 1})
 		}
@@ -845,6 +962,7 @@ func genCrash(focus, tier string, seed int64) []core.Case {
 			add(10, spec{"multikey", 1, 1, 30, 16, 1})
 			add(10, spec{"deep", 1, 1, 40, 16, 1})
 			add(20, spec{"plain", 0, 1, 40, 16, 1})
+			add(6, spec{"bigtxn", 1, 1, 20, 16, 1})
 		}
 	}
 	r := rand.New(rand.NewSource(seed*2038074743 + int64(focus[2])))
@@ -857,6 +975,10 @@ func genCrash(focus, tier string, seed int64) []core.Case {
 				N: map[string]int64{"pseed": pseed, "drained": s.drained, "writers": s.writers, "ntx": s.ntx, "offset": int64(off), "stride": int64(s.stride), "seqevery": seqEvery, "depth3": depth3}}
 			if focus == "C14" {
 				c.N["images"] = 1
+				c.N["seqevery"] = 16
+				if !quick {
+					c.N["seqevery"] = 5
+				}
 				if !quick {
 					c.N["dense"] = 1
 				}
@@ -874,7 +996,7 @@ func crashSelfTest() error {
 	p := crashProgram{Keys: []string{"a", "b", "c"}, Writers: 1}
 	st := ackState{expected: map[string]string{"a": "1", "b": "2"}, written: map[string]map[string]bool{"a": {"1": true, "9": true}, "b": {"2": true, "0": true}, "c": {"7": true}},
 		inflight: []crashTxn{{Writer: 0, Idx: 5, Writes: map[string]string{"a": "9", "c": "7"}}}}
-	post := map[string]string{"a": "post-a", "b": "post-b", "c": "post-c"}
+	post0 := map[string]string{"a": "post-a", "c": "post-c"}
 	type tc struct {
 		state map[string]string
 		want  string
@@ -888,6 +1010,13 @@ func crashSelfTest() error {
 		{map[string]string{"a": "1", "b": "zz"}, "C03 alien-value"},
 		{map[string]string{"a": "5", "b": "2"}, "C03 inflight-key-neither-old-nor-new"},
 	} {
+		post := map[string]string{}
+		for k, v := range post0 {
+			post[k] = v
+		}
+		if v, ok := c.state["b"]; ok {
+			post["b"] = v
+		}
 		js := judgeRecovery(st, verifyOut{State: c.state, Post: post}, p, true)
 		got := ""
 		if len(js) > 0 {
@@ -897,8 +1026,11 @@ func crashSelfTest() error {
 			return fmt.Errorf("crash judge self-test %d: got %q want %q", i, got, c.want)
 		}
 	}
-	if js := judgeRecovery(st, verifyOut{State: map[string]string{"a": "1", "b": "2"}, Post: map[string]string{"a": "post-a"}}, p, true); len(js) != 1 || js[0].Sig != "post-recovery-commit-not-retained" {
+	if js := judgeRecovery(st, verifyOut{State: map[string]string{"a": "1", "b": "2"}, Post: map[string]string{"a": "post-a", "b": "2"}}, p, true); len(js) != 1 || js[0].Sig != "post-recovery-commit-not-retained" {
 		return fmt.Errorf("crash judge self-test: lost post-recovery commit not flagged")
+	}
+	if js := judgeRecovery(st, verifyOut{State: map[string]string{"a": "1", "b": "2"}, Post: map[string]string{"a": "post-a", "c": "post-c"}}, p, true); len(js) != 1 || js[0].Sig != "recovered-value-lost-after-further-commits" {
+		return fmt.Errorf("crash judge self-test: value lost after post-recovery commits not flagged")
 	}
 	return nil
 }
@@ -958,7 +1090,7 @@ func init() {
 	})
 	core.Register(&core.Check{
 		Prop: "C14", Level: "fault_enumeration",
-		Rule: common + "; the hook handler tracks the fsynced length of every file (rename carries it over); at every crash point that has a file with bytes beyond its synced length, images are built in which that file is cut to every length in [synced, size) (gap <= 64 bytes, thorough <= 400) or to {synced, +1, +7..9, middle, -9, -8, -1}, plus one image with all such files cut to their synced length; each image is recovered and judged like C03 without the atomicity rule; evidence counts crash points plus images (evaluations); non-trivial = image in which >=1 byte was actually cut; distinct by (program, kill index, file, cut length)",
+		Rule: common + "; the hook handler tracks the fsynced length of every file (rename carries it over); at every crash point that has a file with bytes beyond its synced length, images are built in which that file is cut to every length in [synced, size) (gap <= 64 bytes, thorough <= 400) or to {synced, +1, +7..9, middle, -9, -8, -1}, plus one image with all such files cut to their synced length; each image is recovered and judged like C03 without the atomicity rule; at every 16th (quick) / 5th (thorough) crash point the recovery is additionally killed before each of its own operations and the tails left unsynced by the recovery are cut; evidence counts crash points plus images (evaluations); non-trivial = image in which >=1 byte was actually cut; distinct by (program, kill index, file, cut length)",
 		Gen:      func(tier string, seed int64) []core.Case { return genCrash("C14", tier, seed) },
 		Run:      func(c core.Case) core.Result { return runCrashCase(c, "C14") },
 		Post:     crashPost("C14"),
